@@ -5,7 +5,7 @@ stop reading / disappear, agent stop; the recorded frames are validated against 
 """
 import json, os
 from vlib import core
-from checks import e2e
+from checks import e2e, k_writetask
 
 CONSTS = {"Lanes": set(e2e.AGENT_LANES), "SyncLanes": set(e2e.SYNC_LANES), "Remotes": {1, 2, 3}}
 
@@ -37,6 +37,7 @@ def run(tier, out):
         out.add(states=r.generated, transitions=r.generated)
         if pi == 0 and cases:
             out.sample({"script": cases[0]["acts"][:10], "frames": [e for e in results[0]["log"] if e["e"] == "frame"][:12]})
+    k_writetask.run_k(tier, out, os.path.join(wd, "k"), prop="C04", only=None)
     out.add(traces_validated_against_impl=tot_cases, trace_events_validated=tot_events,
             rule="scripts are behaviours of AgentEnv.tla (TLC simulation, seeded); every recorded execution of the real agent+runtime is validated against Trace_LinkProtocol.tla",
             checker_cmd="tlc -simulate AgentEnv; h_runtime/e2e; tlc Trace_LinkProtocol (POSTCONDITION TraceAccepted)")
